@@ -237,7 +237,12 @@ class DisconnectFlush(Unit):
 
     def replay(self, model, label):
         rp = replay_flush()
-        return rp if rp['confirmed'] else replay_close_race()
+        if not rp['confirmed']:
+            rp = replay_close_race()
+        for enabled in (False, True):
+            if not rp['confirmed']:
+                rp = replay_directed(enabled, 'disconnect')
+        return rp
 
     def bounded(self, rng, tier):
         rp = replay_flush()
@@ -245,6 +250,10 @@ class DisconnectFlush(Unit):
         if not rp['confirmed']:
             rp = replay_close_race()
             n += 4
+        for enabled in (False, True):
+            if not rp['confirmed']:
+                rp = replay_directed(enabled, 'disconnect')
+                n += 1
         return dict(name='C12.flush.concrete', evaluations=n, bound='queues of 0, 1, 5, 400 packets, immediate and not, '
                     'on the real Connection; 4 directed schedules of a forced write racing with the teardown',
                     failures=[dict(call=rp['call'], observed=rp['observed'], witness='flush')] if rp['confirmed'] else [])
@@ -454,6 +463,8 @@ def replay_directed(enabled=False, second='forced'):
     def intruder():
         if second == 'forced':
             conn.write_packet(B, force=True)
+        elif second == 'disconnect':
+            conn.disconnect()                   # flushes C (queued behind A) and closes
         else:
             with conn._write_lock:
                 conn._pop_packet()
@@ -465,7 +476,15 @@ def replay_directed(enabled=False, second='forced'):
                 started.append(threading.Thread(target=intruder))
                 started[0].start()
                 started[0].join(0.25)        # returns early only if the intruder was NOT made to wait
+        def shutdown(self, how):
+            pass
+
+        def close(self):
+            pass
     conn.socket = Sock()
+    conn.file_object = None
+    conn.connected = True
+    conn.networking_thread, conn.new_networking_thread = None, None
     conn.write_packet(A)
     if second != 'forced':
         conn.write_packet(C)
@@ -473,9 +492,10 @@ def replay_directed(enabled=False, second='forced'):
         conn._pop_packet()
     if started:
         started[0].join(5)
-    with conn._write_lock:
-        while conn._pop_packet():
-            pass
+    if conn.socket is not None:
+        with conn._write_lock:
+            while conn._pop_packet():
+                pass
     data, pos, ids = b''.join(chunks), 0, []
     bad = None
     while pos < len(data):
@@ -497,7 +517,8 @@ def replay_directed(enabled=False, second='forced'):
         bad = 'frames on the wire %r, expected %r' % (ids, want)
     return dict(confirmed=bad is not None,
                 call='thread T1 drains queued packet A; between its two sends thread T2 does %s (compression=%r)' % (
-                    'write_packet(B, force=True)' if second == 'forced' else 'a second _pop_packet under its own lock', enabled),
+                    {'forced': 'write_packet(B, force=True)', 'disconnect': 'disconnect() with C still queued'}.get(
+                        second, 'a second _pop_packet under its own lock'), enabled),
                 observed=bad or 'conforms')
 
 
